@@ -356,7 +356,7 @@ func namePrefix(x vis) string {
 	s := strings.Repeat("  ", x.depth)
 	if p := x.v.Parent; p != nil {
 		if c, ok := p.V.(*decode.Compound); ok && c.IsArray {
-			return s + "[" + strconv.Itoa(x.v.Index) + "]"
+			return s + "[" + strconv.Itoa(int(x.v.Index)) + "]"
 		}
 	}
 	return s + x.v.Name
